@@ -481,14 +481,13 @@ def expected_generated(desc):
 def variants(desc, rng, per_name=None, falsy=None):
     """the class with each generated name occupied in its own body: `per_name` of the four
     callable/truthy kinds (None: all four) and `falsy` of the five falsy plain values (None: all five).
-    __new__ is only occupied by truthy objects (the lazy hook tests `if orig_new:`; see docs/C16.md)."""
+    __new__ included (the lazy hook must hand back whatever the body bound, falsy or not)."""
     out = []
     for n in expected_generated(desc) + ["__new__"]:
         kinds = KINDS if per_name is None else rng.sample(KINDS, per_name)
         if n == "__new__":
             kinds = ["function"] if per_name is not None else ["function", "staticmethod", "classmethod", "property", "value"]
-        else:
-            kinds = kinds + (list(FALSY) if falsy is None else rng.sample(list(FALSY), falsy))
+        kinds = kinds + (list(FALSY) if falsy is None else rng.sample(list(FALSY), falsy))
         for kd in kinds:
             d = json.loads(json.dumps(desc))
             d["occupied"] = [{"name": n, "kind": kd}]
